@@ -1,23 +1,29 @@
 ----------------------------- MODULE UrlAttack -----------------------------
 (***************************************************************************)
 (* Generator for C04: every way of writing a dangerous URL.                 *)
-(*   scheme x letter-case pattern x obfuscation x construct                 *)
+(*   scheme x letter-case pattern x obfuscation x construct x tail           *)
 (* Obfuscations act on one position of "scheme:" (a letter or the colon):   *)
 (* none, backslash escape, named / decimal / hex character reference,       *)
 (* percent-encoding, and prefixes / infixes of whitespace and control       *)
 (* characters, raw or as character references.  Each element is labelled    *)
 (* with what a browser makes of the INTENDED url (Browser front end of      *)
 (* HtmlOut.tla is applied by the acceptor to what is actually emitted).     *)
+(* The tail is what follows "scheme:" - the browser decides by the scheme    *)
+(* alone, so a tail that a URL library refuses to parse (line feed or space *)
+(* in the authority, a port that is no number, an unclosed IPv6 literal, a  *)
+(* broken percent escape) is as dangerous as any other; tails are combined  *)
+(* with the obfuscations in SimpleObf only.                                 *)
 (* The concrete spelling is a table in the harness indexed by these names.  *)
 (***************************************************************************)
 EXTENDS Integers, Sequences, FiniteSets, TLC, Json
-CONSTANTS Schemes, Cases, Obfuscations, Positions, Constructs
-VARIABLES scheme, case, obf, pos, construct, done
-vars == <<scheme, case, obf, pos, construct, done>>
+CONSTANTS Schemes, Cases, Obfuscations, Positions, Constructs, Tails, SimpleObf
+VARIABLES scheme, case, obf, pos, construct, tail, done
+vars == <<scheme, case, obf, pos, construct, tail, done>>
 Init == /\ scheme \in Schemes /\ case \in Cases /\ obf \in Obfuscations /\ pos \in Positions /\ construct \in Constructs
+        /\ tail \in Tails /\ (tail # "plain" => (obf \in SimpleObf /\ scheme \in {"javascript", "vbscript", "file"}))
         /\ done = FALSE
-Emit == /\ ~done /\ done' = TRUE /\ UNCHANGED <<scheme, case, obf, pos, construct>>
-        /\ PrintT(ToJson(<<scheme, case, obf, pos, construct>>))
+Emit == /\ ~done /\ done' = TRUE /\ UNCHANGED <<scheme, case, obf, pos, construct, tail>>
+        /\ PrintT(ToJson(<<scheme, case, obf, pos, construct, tail>>))
 Next == Emit
 TypeOK == scheme \in Schemes
 =============================================================================
